@@ -430,9 +430,11 @@ class Sim(object):
         def setup_zpts(rx):
             # deterministic stand-in for a hang: refuse meshes that cannot
             # be built within the plane budget (C05 decides those)
-            if not (rx.req_dz > 0) or \
-                    rx.core_length / rx.req_dz > sim.max_planes:
-                raise BudgetExceeded('reactor.py:_setup_zpts')
+            if not (rx.req_dz > 0):
+                raise BudgetExceeded('reactor.py:_setup_zpts (zero step)')
+            if rx.core_length / rx.req_dz > sim.max_planes:
+                raise BudgetExceeded('reactor.py:_setup_zpts (plane cap of '
+                                     'the harness, not a hang)')
             return orig_zpts(rx)
 
         from dassh import region as _region_mod
